@@ -25,8 +25,9 @@
   Ghost (history) variables, never read by a guard: `hist` (datagrams in the
   order ReadFrom returned them; a packet's `seq` is its index), `processed`
   (datagrams the loop has finished with), per registration `routed` (every
-  packet ever sent on its channel), `taken` (those its owner received) and
-  `bornAt` (`processed` when it was registered),
+  packet ever sent on its channel), `rejected` (those its owner received and
+  its matcher refused), `hand` (the one its owner is looking at) and `bornAt`
+  (`processed` when it was registered),
   per caller `startProc`/`lastReg`/`tries`/`tstart`, and the clock `now`.
 
   Two deliberate abstractions, both supersets of the Go behaviour:
@@ -154,7 +155,8 @@ structure Reg where
   chClosed : Bool := false
   doneClosed : Bool := false
   routed : List Pkt := []
-  taken : List Pkt := []
+  rejected : List Pkt := []
+  hand : Option Pkt := none
   bornAt : Nat := 0
   deriving DecidableEq, Hashable, Repr, Inhabited
 
@@ -357,7 +359,7 @@ def step (cfg : Cfg) (s : State) : Label → Option State
     if c.pc = .regLocked ∧ s.mutex = some (.caller i) ∧ s.pending.get x = none then
       let r := s.nregs
       let s1 := setR s r { xid := x, owner := i, cap := cfg.cap, bornAt := s.processed }
-      some { setC s1 i { c with pc := .registered r, timerFired := false } with
+      some { setC s1 i { c with pc := .registered r, timerFired := false, lastReg := r } with
                nregs := r + 1, pending := s.pending.set x r, mutex := none }
     else none
   | .refuse i =>
@@ -383,7 +385,7 @@ def step (cfg : Cfg) (s : State) : Label → Option State
     | .waiting r =>
       let g := getR s r
       match g.buf with
-      | p :: rest => some (setC (setR s r { g with buf := rest, taken := g.taken ++ [p] }) i
+      | p :: rest => some (setC (setR s r { g with buf := rest, hand := some p }) i
                              { c with pc := .matching r (some p) })
       | [] => if g.chClosed then some (setC s i { c with pc := .matching r none }) else none
     | _ => none
@@ -398,7 +400,11 @@ def step (cfg : Cfg) (s : State) : Label → Option State
   | .reject i =>
     let c := getC s i
     match c.pc with
-    | .matching r (some p) => if accepted (cfg.caller i) p.d then none else some (setC s i { c with pc := .waiting r })
+    | .matching r (some p) =>
+      if accepted (cfg.caller i) p.d then none
+      else
+        let g := getR s r
+        some (setC (setR s r { g with rejected := g.rejected ++ [p], hand := none }) i { c with pc := .waiting r })
     | _ => none
   | .giveUp i =>
     let c := getC s i
@@ -429,7 +435,7 @@ def step (cfg : Cfg) (s : State) : Label → Option State
     match c.pc with
     | .cancelLocked r w =>
       if s.mutex ≠ some (.caller i) then none else
-      let s1 := { setC s i { c with pc := .after w, lastReg := r } with mutex := none }
+      let s1 := { setC s i { c with pc := .after w } with mutex := none }
       match s.pending.get x with
       | some r' =>
         if !cfg.cancelChecksOwner || r' = r then
